@@ -1,4 +1,4 @@
-CONSTANTS N = 3 W <- W211 None <- NoneV MaxSeq = 7 MaxEv = 20 Forkers <- NoForkers HeadsOnly = TRUE LazyFrames = FALSE MaxOthers = 2
+CONSTANTS N = 3 W <- W211 None <- NoneV Rule <- StdRule MaxSeq = 7 MaxEv = 20 Forkers <- NoForkers HeadsOnly = TRUE LazyFrames = FALSE MaxOthers = 2
 SPECIFICATION Spec
 INVARIANTS NoTie
 CHECK_DEADLOCK FALSE
